@@ -51,7 +51,7 @@ let show_obs = function
 
 let show_phase = function
   | M.PAccepted -> "accepted" | M.PHasSvc -> "hassvc" | M.PAssigned -> "assigned" | M.PFailed -> "failed"
-  | M.PRunning -> "running" | M.PExited s -> "exited:" ^ show_status s | M.PFinished s -> "finished:" ^ show_status s
+  | M.PRunning -> "running" | M.PStopping s -> "stopping:" ^ show_status s | M.PExited s -> "exited:" ^ show_status s | M.PFinished s -> "finished:" ^ show_status s
   | M.PDoneOk s -> "done:" ^ show_status s | M.PDoneFail -> "done:assignerfail"
 let show_state (s : M.state) =
   Printf.sprintf "{conns=[%s] wg=%d acc=%s ctx=%b closes=[%s]}"
@@ -71,6 +71,7 @@ let () =
   let items = ref [] in
   let faults = ref [] in
   let have_cfg = ref false in
+  let race = ref false in   (* racing scenarios (no quiescence between actions) are judged by the monitors only *)
   let flush_cur () =
     (match !cur with
      | Some (f, ln) ->
@@ -88,7 +89,7 @@ let () =
       let f = split_on '\t' l in
       match f with
       | ["cfg"; h] ->
-        hooks := (h = "1"); have_cfg := true;
+        hooks := (h = "1"); race := (h = "2"); have_cfg := true;
         items := []; faults := []; cur := None; obs := []
       | "scenario" :: fam :: seed :: idx :: _ -> hdr := String.concat " " [fam; seed; idx]
       | "env" :: _ | "rel" :: _ -> flush_cur (); cur := Some (f, ln)
@@ -104,6 +105,7 @@ let () =
         let its = List.rev !items in
         List.iter (fun x -> Printf.printf "FAULT %s %s\n" !hdr x) (List.rev !faults);
         if not !have_cfg then Printf.printf "BADLOG %s no cfg\n" !hdr
+        else if !race then Printf.printf "OK %s skipped racing-log\n" !hdr
         else begin
           match A.accept !hooks [M.init true] (List.map fst its) Model.Datatypes.O with
           | A.Accepted (n, _) -> Printf.printf "OK %s states=%d items=%d\n" !hdr (int_of_nat n) (List.length its)
